@@ -376,6 +376,11 @@ class SolverActor:
                     rr = p["r"] if rt is None else (np.float64(p["r"]) if rt == "np.float64" else np.array(float(p["r"])))
                     kw = dict(eps=p.get("eps", 0.01), r=rr, itersLimit=p.get("itersLimit", 20000), evolventDensity=dens,
                               refineSolution=p.get("refineSolution", False))
+                    if "epsR" in p:
+                        # a parameter of the constrained-problem scheme, unused on the problems this version solves:
+                        # whatever its value, nothing may depend on it
+                        kw["epsR"] = p["epsR"]
+                        w.fired["epsR_given"] += 1
                     src = self.spec.get("start_point_from")
                     if src and src in w.actors and w.actors[src].created and w.actors[src].aborted is None:
                         try:
@@ -391,7 +396,7 @@ class SolverActor:
                     if self.spec.get("params_set") == "positional" and "startPoint" not in kw:
                         # the first four parameters written positionally: SolverParameters(eps, r, itersLimit, evolventDensity)
                         self.parameters = SolverParameters(kw["eps"], kw["r"], kw["itersLimit"], kw["evolventDensity"],
-                                                           refineSolution=kw["refineSolution"])
+                                                           **{k2: kw[k2] for k2 in ("epsR", "refineSolution") if k2 in kw})
                         w.fired["parameters_given_positionally"] += 1
                     elif self.spec.get("params_set") == "attr":
                         # the user builds a default object and then assigns its public fields
